@@ -118,8 +118,46 @@ func Load(tier string, whole bool, overlay map[string][]byte) (*World, error) {
 				clean = false
 			}
 		}
+		var lifted []string
+		if clean {
+			// closures the reference tree does not have become package-level helpers, which canonicalize() inlines
+			lov, llog := liftNewClosures(pkgs, func(name string) ([]byte, error) {
+				if b, ok := cfg.Overlay[name]; ok {
+					return b, nil
+				}
+				return os.ReadFile(name)
+			})
+			if len(lov) > 0 {
+				cfgL := *cfg
+				cfgL.Overlay = map[string][]byte{}
+				for k, v := range cfg.Overlay {
+					cfgL.Overlay[k] = v
+				}
+				for k, v := range lov {
+					cfgL.Overlay[k] = v
+				}
+				pkgsL, errL := packages.Load(&cfgL, "./...", modCore+"/...")
+				okL := errL == nil && len(pkgsL) == len(pkgs)
+				if okL {
+					for _, p := range pkgsL {
+						if len(p.Errors) > 0 {
+							okL = false
+						}
+					}
+				}
+				if okL {
+					cfg, pkgs, lifted = &cfgL, pkgsL, llog
+				}
+			}
+		}
 		if clean {
 			ov, lg := canonicalize(*cfg, pkgs)
+			if len(lifted) > 0 {
+				lg.Lifted = lifted
+				if ov == nil {
+					ov = cfg.Overlay
+				}
+			}
 			canon = lg
 			if ov != nil {
 				cfg2 := *cfg
